@@ -266,6 +266,13 @@ for _ in range(40):
 import math as _math
 from fractions import Fraction as _Fr
 from rig import type_casts as _tc
+for signed in (False, True):
+    for bits in (0, 7, 8, 16, 32, 64, 65):
+        frac = rng.randint(-3, 40)
+        def hnp():
+            c = _tc.NumpyFloatToFixConverter(signed, bits, frac)
+            return show((int(c.max_value), int(c.min_value), int(c.n_frac)))
+        add("NumpyFloatToFixConverter_init 1 2 3 %s %s %s" % (B(signed), L(bits), L(frac)), exc_(hnp))
 FRAC = "(fun (r : Rig.C16.FV) => match r with | Rig.C16.FV.val (Rig.C16.FloatR.fin d) => (let n : Int := if 0 ≤ d.e then d.m * 2 ^ d.e.toNat else d.m; let q : Int := if 0 ≤ d.e then 1 else 2 ^ (-d.e).toNat; let g : Int := ((Int.gcd n q : Nat) : Int); (n / g, q / g)) | _ => ((0 : Int), (0 : Int)))"
 for _ in range(60):
     signed, bits, frac = rng.random() < 0.5, rng.choice([1, 8, 16, 32, 64]), rng.choice([-3, 0, 4, 15, 16, 31, 100, 1030])
